@@ -156,6 +156,12 @@ func (c *Client) validateVirtualChannelSettlementProposal(
 		return errors.New("invalid balances")
 	}
 
+	// Assert that all other sub-allocations stay as they are.
+	rest := parent.state().Clone()
+	if err := rest.RemoveSubAlloc(subAlloc); err != nil || !channel.SubAllocsEqual(rest.Locked, prop.State.Locked) {
+		return errors.New("other sub-allocations changed")
+	}
+
 	return nil
 }
 
